@@ -16,15 +16,18 @@ CONSTANTS Sizes,      \* segment sizes S explored; message lengths are 0..3S+1
           MaxZero,    \* zero-length reads a source may return in total
           Defect      \* "none" | "swallow" (any read error is taken for EOF) | "nocarry" (carry-over byte dropped)
                       \* | "eager-last" (fills only S bytes; last decided by the EOF seen so far)
+                      \* | "empty-read-budget" (gives up with an error after 2 reads returning (0, nil) in the WHOLE stream:
+                      \*   the counter of "consecutive" empty reads is never reset on progress)
 
 VARIABLES S, len,                      \* configuration
           pos, seof, sfail, zeros, failOK,   \* source: bytes handed out, EOF returned, failed, zero reads left, may fail
+          empties,                           \* loop: reads that returned (0, nil) so far (only used by the defect variant)
           n, bufFrom, carry, seg, done, err, \* loop: buffer fill, position of buf[0], hasCarryover, segment, done, err
           pc,                          \* "top" | "fill" | "decide" | "write" | "closed"
           pipeLeft, closed,            \* io.Pipe: bytes of the pending Write, "open" | "eof" | "err"
           cbuf, phase,                 \* consumer: buffer size, "reading" | "ended"
           c                            \* contract monitor
-vars == <<S, len, pos, seof, sfail, zeros, failOK, n, bufFrom, carry, seg, done, err, pc, pipeLeft, closed, cbuf, phase, c>>
+vars == <<S, len, pos, seof, sfail, zeros, failOK, empties, n, bufFrom, carry, seg, done, err, pc, pipeLeft, closed, cbuf, phase, c>>
 
 RECURSIVE Feed(_, _)
 Feed(cc, evs) == IF evs = <<>> THEN cc ELSE Feed(CNext(cc, Head(evs)), Tail(evs))
@@ -34,6 +37,7 @@ Target == IF Defect = "eager-last" THEN S ELSE S + 1     \* bytes the inner loop
 Init ==
   /\ S \in Sizes /\ len \in 0..(3 * S + 1)
   /\ pos = 0 /\ seof = FALSE /\ sfail = FALSE /\ zeros \in 0..MaxZero /\ failOK \in BOOLEAN
+  /\ empties = 0
   /\ n = 0 /\ bufFrom = 0 /\ carry = FALSE /\ seg = 0 /\ done = FALSE /\ err = "nil"
   /\ pc = "top" /\ pipeLeft = 0 /\ closed = "open"
   /\ cbuf \in CSizes /\ phase = "reading"
@@ -56,13 +60,15 @@ Top ==
   /\ n' = IF carry /\ Defect # "nocarry" THEN 1 ELSE 0
   /\ bufFrom' = IF carry /\ Defect # "nocarry" THEN pos - 1 ELSE pos
   /\ carry' = FALSE /\ pc' = "fill"
-  /\ UNCHANGED <<S, len, pos, seof, sfail, zeros, failOK, seg, done, err, pipeLeft, closed, cbuf, phase, c>>
+  /\ UNCHANGED <<S, len, pos, seof, sfail, zeros, failOK, empties, seg, done, err, pipeLeft, closed, cbuf, phase, c>>
 
 (* scheme.go:279-282  one in.Read(buf[n : segmentSize+1]) *)
 Fill ==
   /\ pc = "fill" /\ n < Target /\ err = "nil"
   /\ \E o \in SrcOutcomes(Target - n) :
-       /\ pos' = pos + o[1] /\ n' = n + o[1] /\ err' = o[2]
+       /\ pos' = pos + o[1] /\ n' = n + o[1]
+       /\ empties' = IF o[1] = 0 /\ o[2] = "nil" THEN empties + 1 ELSE empties
+       /\ err' = IF Defect = "empty-read-budget" /\ o[1] = 0 /\ o[2] = "nil" /\ empties + 1 >= 2 THEN "err" ELSE o[2]
        /\ seof' = (seof \/ o[2] = "eof") /\ sfail' = (sfail \/ o[2] = "err")
        /\ zeros' = IF o[3] THEN zeros - 1 ELSE zeros
        /\ c' = Feed(c, <<[ev |-> "srcread", k |-> Target - n, n |-> o[1], err |-> o[2]]>>)
@@ -85,14 +91,14 @@ Decide ==
                ELSE /\ pipeLeft' = nn /\ pc' = "write" /\ closed' = closed          \* :321 processFn -> out.Write
                     /\ c' = Feed(c, <<[ev |-> "emit", from |-> bufFrom, to |-> bufFrom + nn, num |-> seg,
                                        last |-> dn, ok |-> TRUE]>>)
-  /\ UNCHANGED <<S, len, pos, seof, sfail, zeros, failOK, bufFrom, seg, err, cbuf, phase>>
+  /\ UNCHANGED <<S, len, pos, seof, sfail, zeros, failOK, empties, bufFrom, seg, err, cbuf, phase>>
 
 (* the pipe Write returned: err = nil, segment++, loop or close (:321-335) *)
 Written ==
   /\ pc = "write" /\ pipeLeft = 0
   /\ err' = "nil" /\ seg' = seg + 1
   /\ IF done THEN closed' = "eof" /\ pc' = "closed" ELSE closed' = closed /\ pc' = "top"
-  /\ UNCHANGED <<S, len, pos, seof, sfail, zeros, failOK, n, bufFrom, carry, done, pipeLeft, cbuf, phase, c>>
+  /\ UNCHANGED <<S, len, pos, seof, sfail, zeros, failOK, empties, n, bufFrom, carry, done, pipeLeft, cbuf, phase, c>>
 
 (* consumer: one Read(cbuf) on the pipe *)
 ConsumerRead ==
@@ -100,14 +106,14 @@ ConsumerRead ==
   /\ LET m == Min(cbuf, pipeLeft) IN
        /\ pipeLeft' = pipeLeft - m
        /\ c' = Feed(c, <<[ev |-> "read", k |-> cbuf, n |-> m, err |-> "nil", ok |-> TRUE]>>)
-  /\ UNCHANGED <<S, len, pos, seof, sfail, zeros, failOK, n, bufFrom, carry, seg, done, err, pc, closed, cbuf, phase>>
+  /\ UNCHANGED <<S, len, pos, seof, sfail, zeros, failOK, empties, n, bufFrom, carry, seg, done, err, pc, closed, cbuf, phase>>
 
 ConsumerEnd ==
   /\ phase = "reading" /\ pc = "closed" /\ pipeLeft = 0
   /\ phase' = "ended"
   /\ c' = Feed(c, <<[ev |-> "read", k |-> cbuf, n |-> 0, err |-> IF closed = "eof" THEN "eof" ELSE "srcerr", ok |-> TRUE],
                     [ev |-> "end"]>>)
-  /\ UNCHANGED <<S, len, pos, seof, sfail, zeros, failOK, n, bufFrom, carry, seg, done, err, pc, pipeLeft, closed, cbuf>>
+  /\ UNCHANGED <<S, len, pos, seof, sfail, zeros, failOK, empties, n, bufFrom, carry, seg, done, err, pc, pipeLeft, closed, cbuf>>
 
 Next == Top \/ Fill \/ Decide \/ Written \/ ConsumerRead \/ ConsumerEnd
 Spec == Init /\ [][Next]_vars /\ WF_vars(Next)
